@@ -434,6 +434,27 @@ func (env *ExprEnv) binary(e *ast.BinaryExpr) Val {
 	t := env.t
 	x := env.eval(e.X)
 	y := env.eval(e.Y)
+	// numeric literal next to a float32 value: a float32 literal
+	if t.bv {
+		if x.K == KF32 && y.K != KF32 {
+			if f, ok := litFloat(e.Y); ok {
+				y = Val{K: KF32, S: f32Lit(float32(f)), T: x.T}
+			}
+		}
+		if y.K == KF32 && x.K != KF32 {
+			if f, ok := litFloat(e.X); ok {
+				x = Val{K: KF32, S: f32Lit(float32(f)), T: y.T}
+			}
+		}
+	} else {
+		// outside bv mode float32 values are exact reals
+		if x.K == KF32 {
+			x.K = KF64
+		}
+		if y.K == KF32 {
+			y.K = KF64
+		}
+	}
 	switch e.Op {
 	case token.LAND:
 		return boolVal(sAnd(x.S, y.S))
@@ -894,4 +915,22 @@ func (env *ExprEnv) lookupGhost(x Val, name string) *GhostField {
 		base = p
 	}
 	return env.t.eng.con.Ghost[typeKey(base)+"."+name]
+}
+
+func litFloat(e ast.Expr) (float64, bool) {
+	switch e := e.(type) {
+	case *ast.ParenExpr:
+		return litFloat(e.X)
+	case *ast.BasicLit:
+		if e.Kind == token.INT || e.Kind == token.FLOAT {
+			f, err := strconv.ParseFloat(e.Value, 64)
+			return f, err == nil
+		}
+	case *ast.UnaryExpr:
+		if e.Op == token.SUB {
+			f, ok := litFloat(e.X)
+			return -f, ok
+		}
+	}
+	return 0, false
 }
